@@ -11,7 +11,9 @@ import (
 	"fmt"
 	"math/big"
 	"os"
+	"sort"
 	"strings"
+	"time"
 
 	"cosmossdk.io/math"
 	sdk "github.com/cosmos/cosmos-sdk/types"
@@ -364,19 +366,9 @@ var curTrees []*ProposedTree
 // runL1TwicePrep is RunL1Twice with a preparation of the initial state (e.g. extra funds) that is
 // applied identically to the generating and to the observing instance and is part of the snapshot.
 func runL1TwicePrep(seed uint64, id int, prep func(sc *L1Scenario), build L1Builder, rep *Report) *L1Case {
-	mk := func() *L1Scenario {
-		sc := NewL1Scenario(seed, id, nil)
-		installReentry(sc.Env)
-		if prep != nil {
-			prep(sc)
-			sc.Case.Bals = nil
-			sc.Case.Snapshot()
-		}
-		return sc
-	}
-	sc := mk()
+	sc := newPreparedScenario(seed, id, prep)
 	build(sc)
-	sc2 := mk()
+	sc2 := newPreparedScenario(seed, id, prep)
 	sc2.Case.Track = sc.Case.Track
 	sc2.Env.Table = sc.Env.Table
 	sc2.Case.Parse = sc.Case.Parse
@@ -394,6 +386,106 @@ func runL1TwicePrep(seed uint64, id int, prep func(sc *L1Scenario), build L1Buil
 	delete(l1Sides, sc.Case)
 	delete(reentries, sc.Env)
 	return sc2.Case
+}
+
+func newPreparedScenario(seed uint64, id int, prep func(sc *L1Scenario)) *L1Scenario {
+	sc := NewL1Scenario(seed, id, nil)
+	installReentry(sc.Env)
+	if prep != nil {
+		prep(sc)
+		sc.Case.Bals = nil
+		sc.Case.Snapshot()
+	}
+	return sc
+}
+
+// replayL1Sub re-executes the ops of c at the given positions (with their side executions) on a fresh
+// instance built from the same seed and preparation; tracked sets and the address table are c's
+func replayL1Sub(c *L1Case, seed uint64, id int, prep func(sc *L1Scenario), keep []int) *L1Case {
+	sc := newPreparedScenario(seed, id, prep)
+	sc.Case.Track = c.Track
+	sc.Env.Table = c.Env.Table
+	sc.Case.Parse = c.Parse
+	sc.Case.Bals = nil
+	sc.Case.Snapshot()
+	orig, side := l1Sides[c], sideOf(sc.Case)
+	for j, k := range keep {
+		if orig != nil {
+			if g := orig.discards[k]; g != nil {
+				side.discards[j] = g
+			}
+			if orig.reenter[k] {
+				side.reenter[j] = true
+			}
+			if nd, ok := orig.reenterDep[k]; ok {
+				side.reenterDep[j] = nd
+			}
+		}
+		execWith(sc.Case, side, j, c.Ops[k], sc.Case.DoObs)
+	}
+	return sc.Case
+}
+
+const shrinkMaxSigs, shrinkMaxRuns = 3, 150
+const shrinkMaxTime = 20 * time.Second
+
+// shrinkL1Violations minimises the history of the first violation of each not yet minimised
+// signature among rep.Violations[from:] (all found on case c): ddmin over the op prefix up to the
+// failing step, every candidate re-executed on a fresh instance (same seed and preparation) and
+// judged by the same monitors; "still fails" = some monitor reports the same signature.  The first
+// `pinned` ops (the baseline operation) are always kept.
+func shrinkL1Violations(rep *Report, c *L1Case, seed uint64, id int, prep func(sc *L1Scenario), monitors []L1Monitor, from, pinned int, done map[string]bool) {
+	for vi := from; vi < len(rep.Violations); vi++ {
+		v := rep.Violations[vi]
+		if done[v.Sig] || len(done) >= shrinkMaxSigs || v.Case != c.ID || v.Step < pinned || v.Step >= len(c.Ops) {
+			continue
+		}
+		done[v.Sig] = true
+		judge := func(cc *L1Case) *Violation {
+			scratch := NewReport(rep.Property, rep.Seed, rep.Tier)
+			for _, m := range monitors {
+				m(scratch, cc)
+			}
+			for k := range scratch.Violations {
+				if scratch.Violations[k].Sig == v.Sig {
+					return &scratch.Violations[k]
+				}
+			}
+			return nil
+		}
+		fixed := make([]int, pinned)
+		for k := range fixed {
+			fixed[k] = k
+		}
+		var items []int
+		for k := pinned; k <= v.Step; k++ {
+			items = append(items, k)
+		}
+		test := func(keep []int) bool {
+			cc := replayL1Sub(c, seed, id, prep, append(append([]int{}, fixed...), keep...))
+			hit := judge(cc) != nil
+			delete(l1Sides, cc)
+			delete(reentries, cc.Env)
+			return hit
+		}
+		res := DDMin(items, test, shrinkMaxRuns, shrinkMaxTime)
+		cc := replayL1Sub(c, seed, id, prep, append(append([]int{}, fixed...), res.Kept...))
+		if nv := judge(cc); nv != nil {
+			det := map[string]interface{}{"shrunk_from": v.Step + 1, "shrink_runs": res.Runs, "shrink_complete": res.Complete,
+				"original_step": v.Step, "original_what": v.What}
+			if m, ok := nv.Detail.(map[string]interface{}); ok {
+				for k, x := range m {
+					det[k] = x
+				}
+			}
+			nv.Detail = det
+			nv.Case = v.Case
+			rep.Violations[vi] = *nv
+			rep.Hist(fmt.Sprintf("shrunk:%s:%d->%d", v.Sig, v.Step+1, len(nv.Ops)))
+		}
+		delete(l1Sides, cc)
+		delete(reentries, cc.Env)
+	}
 }
 
 // whalePrep gives user 7 more than 2^66 of every denom, so that an escrow can hold more than 2^64
@@ -510,6 +602,7 @@ func runMoneyStream(cfg MoneyStream, seed uint64, tier string, outdir string) *R
 	}
 	var texts []string
 	id := 0
+	shrunk := map[string]bool{} // signatures whose first violation has been minimised
 	emit := func(build L1Builder) {
 		id++
 		c := runL1TwicePrep(seed*100000+uint64(id), id, cfg.Prep, func(sc *L1Scenario) {
@@ -531,8 +624,12 @@ func runMoneyStream(cfg MoneyStream, seed uint64, tier string, outdir string) *R
 				errKinds[o.Kind] = true
 			}
 		}
+		nviol := len(rep.Violations)
 		for _, m := range cfg.Monitors {
 			m(rep, c)
+		}
+		if len(rep.Violations) > nviol {
+			shrinkL1Violations(rep, c, seed*100000+uint64(id), id, cfg.Prep, cfg.Monitors, nviol, 1, shrunk)
 		}
 		rep.Ops += len(c.Ops)
 		rep.CountCase(strings.Join(l1OpsHuman(c.Ops), "\n"), len(okKinds) >= 2 && len(errKinds) >= 1 && okKinds[cfg.mainKind()] && errKinds[cfg.mainKind()])
@@ -579,6 +676,8 @@ func runMoneyStream(cfg MoneyStream, seed uint64, tier string, outdir string) *R
 	if cfg.Extra != nil {
 		cfg.Extra(emit, ti)
 	}
+	// minimised histories first: the check prints the first few violations
+	sort.SliceStable(rep.Violations, func(i, j int) bool { return isShrunk(rep.Violations[i]) && !isShrunk(rep.Violations[j]) })
 	if n := rep.Histogram["case:monitor-only(nested deposit)"]; n > 0 {
 		rep.Notes = append(rep.Notes, fmt.Sprintf("%d of the %d cases contain deposits submitted from inside another deposit's bank transfer; the model has no nested execution, so these cases are evaluated by the monitors only and are not among the model-compared case files (%d)", n, rep.Cases, len(texts)))
 	}
@@ -771,4 +870,31 @@ func (sc *L1Scenario) twinDenomClaim(pt *ProposedTree, b uint64) {
 	if os.Getenv("VERIF_DEBUG") != "" {
 		fmt.Println("twin", op.Bridge, op.Idx, op.Denom, op.Amt, res.OK, res.Err)
 	}
+}
+
+// runL1Monitors evaluates the monitors on a case produced by RunL1Twice(caseSeed, c.ID, ...) and
+// minimises the history of the first new violation of each signature (see shrinkL1Violations); a
+// drop-in replacement for `for _, m := range mons { m(rep, c) }` in the other L1 streams.
+var shrunkByReport = map[*Report]map[string]bool{}
+
+func runL1Monitors(rep *Report, c *L1Case, caseSeed uint64, mons []L1Monitor) {
+	n := len(rep.Violations)
+	for _, m := range mons {
+		m(rep, c)
+	}
+	if len(rep.Violations) > n {
+		if shrunkByReport[rep] == nil {
+			shrunkByReport[rep] = map[string]bool{}
+		}
+		shrinkL1Violations(rep, c, caseSeed, c.ID, nil, mons, n, 0, shrunkByReport[rep])
+	}
+}
+
+func isShrunk(v Violation) bool {
+	m, ok := v.Detail.(map[string]interface{})
+	if !ok {
+		return false
+	}
+	_, has := m["shrunk_from"]
+	return has
 }
